@@ -886,7 +886,12 @@ class SetIndex(BaseSetIndexSortValues):
             if self.frame.npartitions > 1:
                 expr = RepartitionToFewer(expr, 1)
 
-            index_set = SetIndexBlockwise(expr, self._other, self.drop, None)
+            # keep the divisions the user gave for the single output partition:
+            # they are what ``SetIndex._divisions`` has been reporting
+            divisions = None
+            if self.user_divisions is not None and len(self.user_divisions) == 2:
+                divisions = self.user_divisions
+            index_set = SetIndexBlockwise(expr, self._other, self.drop, divisions)
             return SortIndexBlockwise(index_set)
 
         if self.user_divisions is None:
